@@ -212,6 +212,117 @@ theorem find?_some_mem {p : Pool H} {h : H} {e : Entry H} (hf : find? p h = some
 theorem find?_none_iff (p : Pool H) (h : H) : find? p h = none ↔ h ∉ keys p := by
   simp [find?, keys, List.find?_eq_none]
 
+/-! ### getUnverified against its specification -/
+
+theorem find?_filter_other (q : Pool H) (g : Entry H → Bool) (t : H) (hg : ∀ e ∈ q, e.hash = t → g e = true) :
+    find? (q.filter g) t = find? q t := by
+  induction q with
+  | nil => rfl
+  | cons a r ih =>
+    have ih' := ih (fun e he => hg e (List.mem_cons_of_mem _ he))
+    unfold find? at ih' ⊢
+    by_cases ha : a.hash = t
+    · have hga := hg a (List.mem_cons_self) ha
+      simp [List.filter_cons, hga, List.find?_cons, ha]
+    · by_cases hga : g a = true
+      · simp [List.filter_cons, hga, List.find?_cons, ha, ih']
+      · simp [List.filter_cons, hga, List.find?_cons, ha, ih']
+
+theorem eq_of_nodup_map {α β : Type} (f : α → β) (l : List α) (hn : (l.map f).Nodup) (a b : α)
+    (ha : a ∈ l) (hb : b ∈ l) (hf : f a = f b) : a = b := by
+  induction l with
+  | nil => cases ha
+  | cons x r ih =>
+    simp only [List.map_cons, List.nodup_cons, List.mem_map, not_exists, not_and] at hn
+    rcases List.mem_cons.1 ha with rfl | ha' <;> rcases List.mem_cons.1 hb with rfl | hb'
+    · rfl
+    · exact absurd hf.symm (hn.1 b hb')
+    · exact absurd hf (hn.1 a ha')
+    · exact ih hn.2 ha' hb'
+
+theorem unvStep_pool (height : Nat) (q : Pool H) (r : CheckBlk H) (t : H) (hq : (keys q).Nodup) :
+    (unvStep height (q, r) t).1 = q.filter (fun e => !(e.hash == t && !fresh height e)) ∧
+    (unvStep height (q, r) t).2 = classify height q t r := by
+  unfold unvStep classify
+  cases hf : find? q t with
+  | none =>
+    simp only [hf]
+    refine ⟨?_, trivial⟩
+    have hn := (find?_none_iff q t).1 hf
+    symm; rw [List.filter_eq_self]
+    intro e he
+    have : e.hash ≠ t := fun h => hn (h ▸ List.mem_map.2 ⟨e, he, rfl⟩)
+    simp [this]
+  | some e0 =>
+    simp only [hf]
+    obtain ⟨hmem, hh⟩ := find?_some_mem hf
+    -- the entry with hash t is unique
+    have uniq : ∀ e ∈ q, e.hash = t → e = e0 := by
+      intro e he het
+      have hnd : (q.map (·.hash)).Nodup := hq
+      exact eq_of_nodup_map (·.hash) q hnd e e0 he hmem (by rw [het, hh])
+    by_cases hfr : fresh height e0 = true
+    · simp only [hfr, Bool.not_true, Bool.false_eq_true, ↓reduceIte]
+      have hkeep : q = q.filter (fun e => !(e.hash == t && !fresh height e)) := by
+        symm; rw [List.filter_eq_self]
+        intro e he
+        by_cases het : e.hash = t
+        · rw [uniq e he het]; simp [hfr]
+        · simp [het]
+      cases hs : List.find? (fun a : Attr => a.stateful) e0.attrs with
+      | none => exact ⟨hkeep, rfl⟩
+      | some a => exact ⟨hkeep, rfl⟩
+    · have hfr' : fresh height e0 = false := by simpa using hfr
+      simp only [hfr', Bool.not_false, ↓reduceIte]
+      refine ⟨?_, trivial⟩
+      unfold erase
+      apply List.filter_congr
+      intro e he
+      by_cases het : e.hash = t
+      · rw [uniq e he het]; simp [hh, hfr']
+      · simp [het]
+
+theorem classify_congr (height : Nat) (p q : Pool H) (t : H) (r : CheckBlk H) (h : find? q t = find? p t) :
+    classify height q t r = classify height p t r := by
+  unfold classify; rw [h]
+
+theorem getUnverified_fold (height : Nat) (p : Pool H) (txs : List H) :
+    ∀ (q : Pool H) (r : CheckBlk H), (keys q).Nodup → (∀ t ∈ txs, find? q t = find? p t) → txs.Nodup →
+      txs.foldl (unvStep height) (q, r) =
+        (q.filter (fun e => !(txs.contains e.hash && !fresh height e)),
+         txs.foldl (fun r t => classify height p t r) r) := by
+  induction txs with
+  | nil =>
+    intro q r _ _ _
+    simp only [List.foldl_nil, Prod.mk.injEq, and_true]
+    symm; rw [List.filter_eq_self]; intro e _; simp
+  | cons t ts ih =>
+    intro q r hq hfind hnd
+    obtain ⟨hnt, hnts⟩ := List.nodup_cons.1 hnd
+    obtain ⟨h1, h2⟩ := unvStep_pool height q r t hq
+    have hstep : unvStep height (q, r) t =
+        (q.filter (fun e => !(e.hash == t && !fresh height e)), classify height p t r) := by
+      rw [← classify_congr height p q t r (hfind t List.mem_cons_self), ← h1, ← h2]
+    simp only [List.foldl_cons, hstep]
+    have hq' : (keys (q.filter (fun e => !(e.hash == t && !fresh height e)))).Nodup :=
+      hq.sublist (keys_sublist List.filter_sublist)
+    have hfind' : ∀ u ∈ ts, find? (q.filter (fun e => !(e.hash == t && !fresh height e))) u = find? p u := by
+      intro u hu
+      have hut : u ≠ t := fun e => hnt (e ▸ hu)
+      rw [find?_filter_other q _ u (by
+        intro e _ heu
+        have : e.hash ≠ t := fun e' => hut (heu ▸ e')
+        simp [this])]
+      exact hfind u (List.mem_cons_of_mem _ hu)
+    rw [ih _ _ hq' hfind' hnts, List.filter_filter]
+    congr 1
+    apply List.filter_congr
+    intro e _
+    by_cases het : e.hash = t
+    · simp [het]; intro h; exact Or.inr h
+    · have : (t == e.hash) = false := by simpa using fun h => het h.symm
+      simp [het, List.contains_cons, this]
+
 /-! ### all operation sequences -/
 
 theorem step_nodup {p : Pool H} (hp : (keys p).Nodup) (op : Op H) : (keys (step p op)).Nodup := by
